@@ -24,6 +24,23 @@ def expected(t, m):
     return zckref.H(t, m).hex()
 
 
+def expected_numbered(t, msg, ln):
+    """as expected_long, but every block of len(msg) bytes starts with its 8-byte little-endian block number (mode H)"""
+    h = zckref.hnew(t)
+    pos = 0
+    j = 0
+    while pos < ln:
+        n = min(len(msg), ln - pos)
+        if n >= 8:
+            h.update(j.to_bytes(8, "little"))
+            h.update(msg[8:n])
+        else:
+            h.update(msg[:n])
+        pos += n
+        j += 1
+    return h.digest()[:zckref.DIGEST_SIZE[t]].hex()
+
+
 def expected_long(t, msg, ln):
     """digest of msg repeated cyclically up to ln bytes (hashlib, streamed)"""
     h = zckref.hnew(t)
@@ -69,8 +86,10 @@ def hash_worker(case):
         nontriv = set()
         for i, l in enumerate(lines):
             t, off, ln, mode, param = l
-            want = expected_long(t, msg, ln) if mode == "G" else expected(t, msg[off:off + ln])
+            want = expected_numbered(t, msg, ln) if mode == "H" else (expected_long(t, msg, ln) if mode == "G" else expected(t, msg[off:off + ln]))
             got = {n: outs[n][i].split()[0] for n in outs}
+            if mode == "H":
+                stats["single_update_calls_over_256MiB"] = stats.get("single_update_calls_over_256MiB", 0) + 1
             if mode == "G":
                 stats["long_messages(>=2^29 bytes)"] = stats.get("long_messages(>=2^29 bytes)", 0) + 1
             stats["evaluations"] += len(outs)
@@ -86,7 +105,7 @@ def hash_worker(case):
             return core.verdict(cid, "violated", [viol[0]], stats, detail=viol[1], cdir=cdir, case=case)
         l = lines[len(lines) // 2]
         return core.verdict(cid, "held", stats=stats, nontrivial=nontriv, sample={"type": l[0], "len": l[2], "mode": l[3], "param": l[4],
-                                                                                   "digest": (expected_long(l[0], msg, l[2]) if l[3] == "G" else expected(l[0], msg[l[1]:l[1] + l[2]]))[:32]})
+                                                                                   "digest": (expected_numbered(l[0], msg, l[2]) if l[3] == "H" else expected_long(l[0], msg, l[2]) if l[3] == "G" else expected(l[0], msg[l[1]:l[1] + l[2]]))[:32]})
     finally:
         core.cleanup_case(cdir, keep)
 
@@ -206,6 +225,9 @@ class C18(core.Check):
         # long messages: the length counters of the back ends (bit length >= 2^32, byte length >= 2^32)
         longs = [(1, (1 << 29) + 77, 65536), (2, (1 << 29) + 5, 1 << 20)] if q else \
             [(t, ln, pc) for t in range(4) for ln, pc in (((1 << 29) - 1, 999983), (1 << 29, 65536), ((1 << 29) + 12345, 1 << 20), ((1 << 32) + 3, 1 << 20))]
+        # one update call larger than 256 MiB (a chunk that size written or read through one buffer)
+        for k, (t, ln) in enumerate([(2, (1 << 28) + (1 << 20) + 13)] if q else [(t_, (1 << 28) + 77 + t_) for t_ in range(4)] + [(3, (1 << 29) + 5)]):
+            out.append({"w": "hash", "batch": "huge-update%d" % k, "lines": [[t, 0, ln, "H", 0]], "bins": ctx["bins"], "seed": self.seed, "cpu": 1200})
         for k, (t, ln, pc) in enumerate(longs):
             out.append({"w": "hash", "batch": "long%d" % k, "lines": [[t, 0, ln, "G", pc]], "bins": ctx["bins"], "seed": self.seed, "cpu": 1200})
         # cross-build files
